@@ -87,7 +87,7 @@ def choose_asms(recs, rng, Bs, opts):
         n = len(r["res"])
         for s in range(1, n + 1):
             for e in range(s, n + 1):
-                for st in (1, -1):
+                for st in ((1, -1, 0) if opts.get("strand0_rows") else (1, -1)):
                     pool.append({"k": "F", "name": r["name"], "s": s, "e": e, "st": st})
     if opts.get("singles"):
         singles = [[p] for p in pool]
